@@ -128,3 +128,19 @@ func segOf(seg []int, k int) int {
 	}
 	return len(seg) - 1
 }
+
+// Extend appends junk hop fields to the last segment until the path has total hop fields (long
+// reply paths force the slow path to build the SCMP message at the end of the buffer instead of in
+// the headroom).
+func Extend(a *APkt, total int) *APkt {
+	b := *a
+	b.Seg = append([]int(nil), a.Seg...)
+	b.Hops = append([]AHop(nil), a.Hops...)
+	n := len(b.Hops)
+	for n < total && b.Seg[len(b.Seg)-1] < 63 {
+		b.Hops = append(b.Hops, AHop{In: 999, Eg: 999})
+		b.Seg[len(b.Seg)-1]++
+		n++
+	}
+	return &b
+}
